@@ -106,6 +106,7 @@ pub fn run_sess(tr: &mut Trace, run: u64, seed: u64, prof: SProfile) -> SessStat
     // steady: loss-free, evenly and frequently stepped (the premise of the keep-alive clause of C10)
     // and every time-out is well above the effective keep-alive period max(interval, 2 s, RTO)
     let steady = prof == SProfile::Idle;
+    let reconnecting = (prof == SProfile::Life || prof == SProfile::Handshake) && r.chance(1, 2);
     let rounds = match prof { SProfile::Timeout => r.range(50, 400), SProfile::Idle => r.range(3000, 40000), SProfile::Flush => r.range(200, 450), _ => r.range(30, 250) };
 
     tr.line(json!({"ev": "Reset", "run": run, "seed": seed as i64 & 0x3FFFFFFF, "driver": "sess-random", "profile": match prof {
@@ -129,6 +130,10 @@ pub fn run_sess(tr: &mut Trace, run: u64, seed: u64, prof: SProfile) -> SessStat
     let flush_at: Vec<u64> = (0..nclients).map(|_| r.range(8, 50)).collect();
     let closer_is_server: Vec<bool> = (0..nclients).map(|_| r.chance(1, 2)).collect();
     let peer_closes_at: Vec<u64> = (0..nclients).map(|_| if r.chance(1, 4) { r.range(4, rounds) } else { u64::MAX }).collect();
+    // crossing disconnects (a fifth of the flush runs, per connection): both applications disconnect in the same round and
+    // the client's frames are lost for the next few seconds (its DISCONNECT and its DISCONNECT-ACK), the server's get through
+    let crossing: Vec<bool> = (0..nclients).map(|_| prof == SProfile::Flush && r.chance(1, 5)).collect();
+    let mut oneway: Vec<(u64, u64, usize, bool)> = Vec::new(); // (t0, t1, slot, frames towards the server)
     let mut flushed: Vec<bool> = vec![false; nclients];
     let mut archive: Vec<(usize, bool, Vec<u8>)> = Vec::new(); // handshake frames seen (slot, to_server, bytes)
     let mut assigned = 0usize; // held[..assigned] already have a fate
@@ -161,6 +166,12 @@ pub fn run_sess(tr: &mut Trace, run: u64, seed: u64, prof: SProfile) -> SessStat
                 s.connect(tr, i);
                 connect_at[i] = u64::MAX;
             }
+            // a client whose connection has ended connects again from the same address (a new Client object behind the
+            // same relay): soon afterwards - while the server still lingers in Closed for that address - or much later
+            if reconnecting && s.slots[i].client.is_some() && s.slots[i].finished && s.slots[i].reconnects < 2 && r.chance(1, 12) {
+                s.slots[i].reconnects += 1;
+                s.connect(tr, i);
+            }
         }
         s.pump(tr);
         for i in 0..nclients {
@@ -182,6 +193,14 @@ pub fn run_sess(tr: &mut Trace, run: u64, seed: u64, prof: SProfile) -> SessStat
                     let mode = *r.pick(&[SendMode::TimeSensitive, SendMode::Unreliable, SendMode::Persistent, SendMode::Reliable, SendMode::Reliable]);
                     s.app_send(tr, from_server, i, r.below(4) as usize, mode, len);
                 }
+            }
+            if prof == SProfile::Flush && !flushed[i] && crossing[i] && round >= flush_at[i] && s.slots[i].client.as_ref().map_or(false, |c| c.is_active()) {
+                flushed[i] = true;
+                let t0 = s.t_ms();
+                oneway.push((t0, t0 + *r.pick(&[2500u64, 4500, 7000]), i, true));
+                let first_server = r.chance(1, 2);
+                s.app_disconnect(tr, first_server, i, true);
+                s.app_disconnect(tr, !first_server, i, true);
             }
             if prof == SProfile::Flush && !flushed[i] && round >= flush_at[i] && s.slots[i].client.as_ref().map_or(false, |c| c.is_active()) {
                 flushed[i] = true;
@@ -244,7 +263,8 @@ pub fn run_sess(tr: &mut Trace, run: u64, seed: u64, prof: SProfile) -> SessStat
                 if ty <= 3 && archive.len() < 64 {
                     archive.push((slot, to_server, s.held[k].bytes.clone()));
                 }
-                let in_black = blackout.iter().any(|(t0, t1, sl)| *sl == slot && now >= *t0 && now < *t1);
+                let in_black = blackout.iter().any(|(t0, t1, sl)| *sl == slot && now >= *t0 && now < *t1)
+                    || oneway.iter().any(|(t0, t1, sl, ts)| *sl == slot && *ts == to_server && now >= *t0 && now < *t1);
                 if in_black || r.chance(p_drop, 100) {
                     tr.line(json!({"ev": "Net", "idx": s.held[k].idx, "fate": "drop"}));
                     s.held[k].due = u64::MAX - 1; // marked dropped
